@@ -797,6 +797,16 @@ class Engine:
             return z3.And(av.c[0] == bv.c[0], z3.ForAll([p], z3.Implies(z3.And(0 <= p, p < av.c[0]), z3.And(*same))))
         if isinstance(ta, Ty.Set) and isinstance(tb, Ty.Set):
             return av.c[0] == bv.c[0]
+        if isinstance(ta, Ty.SDict) and isinstance(tb, Ty.SDict):
+            offa, offb = ta.offsets(), tb.offsets()
+            if list(offa) != list(offb):
+                return z3.BoolVal(False)
+            parts = []
+            for n_, (a, b, c, ft) in offa.items():
+                pa, pb = av.c[a], bv.c[a]
+                parts.append(pa == pb)
+                parts.append(z3.Implies(pa, self.equal(st, V(ft, av.c[b:c]), V(ft, bv.c[b:c]))))
+            return z3.And(*parts)
         if isinstance(ta, Ty.Map) and isinstance(tb, Ty.Map):
             k = z3.Int("eq!k")
             same = [x[k] == y[k] for x, y in zip(av.c[1:], bv.c[1:])]
@@ -823,6 +833,13 @@ class Engine:
                 return z3.Or(*[self.num(iv) == x for x in cv.val]) if cv.val else z3.BoolVal(False)
             raise Unsupported("containment in python constant")
         t = cv.t
+        if isinstance(t, Ty.SDict):
+            if isinstance(iv, PyConst) and isinstance(iv.val, str):
+                off = t.offsets()
+                if iv.val in off:
+                    return cv.c[off[iv.val][0]]
+                return z3.BoolVal(False)
+            raise Unsupported("containment of a computed key in a string-keyed dict")
         k = self.keyterm(iv)
         if isinstance(t, (Ty.Map, Ty.Set)):
             return cv.c[0][k]
@@ -946,6 +963,24 @@ class Engine:
                 return PyConst(val)
             raise Unsupported("symbolic index into python constant")
         t = bv.t
+        if isinstance(t, Ty.SDict):
+            if not (isinstance(idx, PyConst) and isinstance(idx.val, str)):
+                raise Unsupported("string-keyed dict indexed by a computed key")
+            off = t.offsets()
+            if idx.val not in off:
+                raise Unsupported(f"key {idx.val!r} outside the declared fields of {t}")
+            a, b, c, ft = off[idx.val]
+            present = bv.c[a]
+            if not self.spec_mode:
+                if "KeyError" in getattr(st, "catch", ()):
+                    d = st.decided(present)
+                    if d is None:
+                        raise NeedSplit(present)
+                    if d is False:
+                        raise RaiseSignal("KeyError")
+                else:
+                    self.oblige(st, present, f"key {idx.val!r} present at line {self.line(node)}", "safety", node)
+            return V(ft, bv.c[b:c])
         if isinstance(t, Ty.Rec) and isinstance(idx, PyConst) and isinstance(idx.val, str):
             names = list(t.fields)
             if idx.val not in names:
@@ -1203,29 +1238,25 @@ class Engine:
             raise Unsupported(f"unpack of {vv}")
         if isinstance(tgt, ast.Subscript):
             base = self.eval(st, tgt.value)
-            if not isinstance(base, Ref):
-                raise Unsupported("subscript store on a value")
-            bv = st.heap[base.id]
-            idx = self.deref(st, self.eval(st, tgt.slice))
+            idx = self.eval(st, tgt.slice)
+            if not isinstance(idx, PyConst):
+                idx = self.deref(st, idx)
             val = self.unbox_value(st, val) if not isinstance(val, V) else val
-            t = bv.t
-            if isinstance(t, Ty.List):
-                i = self.num(idx)
-                self.oblige(st, z3.And(0 <= i, i < bv.c[0]), f"list store index in range at line {self.line(tgt)}", "safety", tgt)
-                val = self.narrow(st, val, t.e, tgt)
-                st.heap[base.id] = V(t, [bv.c[0]] + [z3.Store(a, i, c) for a, c in zip(bv.c[1:], val.c)])
-                return
-            if isinstance(t, Ty.Map):
-                k = self.keyterm(idx)
-                val = self.narrow(st, val, t.v, tgt)
-                st.heap[base.id] = V(t, [z3.Store(bv.c[0], k, True)] + [z3.Store(a, k, c) for a, c in zip(bv.c[1:], val.c)])
-                return
-            if isinstance(t, Ty.ODict):
-                from . import calls
+            if isinstance(base, Ref):
+                bv = st.heap[base.id]
+                if isinstance(bv.t, Ty.ODict):
+                    from . import calls
 
-                calls.odict_store(self, st, base, bv, self.keyterm(idx), self.narrow(st, val, t.v, tgt))
+                    calls.odict_store(self, st, base, bv, self.keyterm(idx), self.narrow(st, val, bv.t.v, tgt))
+                    return
+                st.heap[base.id] = self.functional_store(st, bv, idx, val, tgt)
                 return
-            raise Unsupported(f"subscript store on {t}")
+            # nested container held by value inside another one: update it and
+            # write the new value back through the enclosing l-value
+            if not isinstance(base, V):
+                raise Unsupported("subscript store on a non-container")
+            self.lv_set(st, tgt.value, self.functional_store(st, base, idx, val, tgt), tgt)
+            return
         if isinstance(tgt, ast.Attribute):
             base = self.eval(st, tgt.value)
             ob = self.deref(st, base)
@@ -1241,6 +1272,65 @@ class Engine:
             st.heap[base.id] = ob2
             return
         raise Unsupported(f"assignment target {type(tgt).__name__}")
+
+    def functional_store(self, st, bv, idx, val, node):
+        t = bv.t
+        if isinstance(t, Ty.List):
+            i = self.num(idx)
+            self.oblige(st, z3.And(0 <= i, i < bv.c[0]), f"list store index in range at line {self.line(node)}", "safety", node)
+            val = self.narrow(st, val, t.e, node)
+            return V(t, [bv.c[0]] + [z3.Store(a, i, c) for a, c in zip(bv.c[1:], val.c)])
+        if isinstance(t, Ty.Map):
+            k = self.keyterm(idx)
+            val = self.narrow(st, val, t.v, node)
+            return V(t, [z3.Store(bv.c[0], k, True)] + [z3.Store(a, k, c) for a, c in zip(bv.c[1:], val.c)])
+        if isinstance(t, Ty.SDict):
+            if not (isinstance(idx, PyConst) and isinstance(idx.val, str)):
+                raise Unsupported("string-keyed dict indexed by a computed key")
+            off = t.offsets()
+            if idx.val not in off:
+                raise Unsupported(f"key {idx.val!r} outside the declared fields of {t}")
+            a, b, c, ft = off[idx.val]
+            val = self.narrow(st, val, ft, node)
+            comps = list(bv.c)
+            comps[a] = z3.BoolVal(True)
+            comps[b:c] = val.c
+            return V(t, comps)
+        raise Unsupported(f"subscript store on {t}")
+
+    def lv_set(self, st, expr, newval, node):
+        """Write `newval` into the location denoted by `expr`."""
+        if isinstance(expr, ast.Name):
+            cur = st.vars.get(expr.id)
+            if isinstance(cur, Ref):
+                st.heap[cur.id] = newval
+            else:
+                st.vars[expr.id] = newval
+            return
+        if isinstance(expr, ast.Attribute):
+            base = self.eval(st, expr.value)
+            ob = self.deref(st, base)
+            if not isinstance(ob, Obj):
+                raise Unsupported("write-back through a non-object attribute")
+            cur = ob.fields.get(expr.attr)
+            if isinstance(cur, Ref):
+                st.heap[cur.id] = newval
+            else:
+                ob2 = ob.clone()
+                ob2.fields[expr.attr] = newval
+                st.heap[base.id] = ob2
+            return
+        if isinstance(expr, ast.Subscript):
+            cont = self.eval(st, expr.value)
+            idx = self.eval(st, expr.slice)
+            if not isinstance(idx, PyConst):
+                idx = self.deref(st, idx)
+            if isinstance(cont, Ref):
+                st.heap[cont.id] = self.functional_store(st, st.heap[cont.id], idx, newval, node)
+            else:
+                self.lv_set(st, expr.value, self.functional_store(st, cont, idx, newval, node), node)
+            return
+        raise Unsupported("write-back through this expression")
 
     def s_Assign(self, st, stmt):
         for t in stmt.targets:
